@@ -93,6 +93,7 @@ fn main() {
     let mut steps = 0usize;
     let mut mid_cycle_ops = 0usize;
     let mut hook_hits: BTreeMap<String, usize> = BTreeMap::new();
+    let mut windows: BTreeMap<String, usize> = BTreeMap::new();
     let mut template_stats: Vec<Value> = vec![];
     let mut stop = false;
     let fatal = std::cell::Cell::new(false);
@@ -128,6 +129,37 @@ fn main() {
         cycles += ex.cycles;
         steps += ex.steps;
         mid_cycle_ops += ex.mid_cycle_ops;
+        // windows named in the properties, as actually observed in this execution
+        {
+            use fastrace::verif::Point;
+            let mut last_collector: Option<Point> = None;
+            let mut collector_open = false;
+            for h in &ex.hooks {
+                if h.lt == hx::exec::LT_COLLECTOR || h.lt == hx::exec::LT_NONE || h.lt == hx::exec::LT_MAIN {
+                    match h.point {
+                        Point::CycleBegin => collector_open = true,
+                        Point::CycleEnd => collector_open = false,
+                        Point::PassBegin { pass: 2 } => *windows.entry("cycles_with_a_second_drain_pass".into()).or_insert(0) += 1,
+                        _ => {}
+                    }
+                    last_collector = Some(h.point);
+                } else {
+                    match (h.point, last_collector) {
+                        (Point::SenderDrop { q, .. }, Some(Point::RecvEmpty { q: q2 })) if q == q2 && collector_open => {
+                            *windows.entry("thread_exits_between_empty_pop_and_abandon_check_of_its_queue".into()).or_insert(0) += 1
+                        }
+                        (Point::SenderDrop { .. }, _) if collector_open => *windows.entry("thread_exits_during_an_open_cycle".into()).or_insert(0) += 1,
+                        (Point::Push { replay: true, .. }, _) => *windows.entry("replayed_parked_signals".into()).or_insert(0) += 1,
+                        (Point::Park { .. }, _) => *windows.entry("parked_signals".into()).or_insert(0) += 1,
+                        (Point::Push { full: true, force: false, .. }, _) => *windows.entry("pushes_onto_a_full_ring".into()).or_insert(0) += 1,
+                        (Point::Send { kind: 2, .. }, _) if collector_open => *windows.entry("commits_sent_during_an_open_cycle".into()).or_insert(0) += 1,
+                        (Point::Send { kind: 1, .. }, _) if collector_open => *windows.entry("cancels_sent_during_an_open_cycle".into()).or_insert(0) += 1,
+                        (Point::Send { kind: 0, .. }, _) if collector_open => *windows.entry("starts_sent_during_an_open_cycle".into()).or_insert(0) += 1,
+                        _ => {}
+                    }
+                }
+            }
+        }
         for h in &ex.hooks {
             let n = format!("{:?}", h.point);
             let n = n.split(|c| c == ' ' || c == '{').next().unwrap_or("").to_string();
@@ -345,6 +377,7 @@ fn main() {
         "collector_steps": steps,
         "worker_ops_during_open_cycle": mid_cycle_ops,
         "hook_hits": hook_hits,
+        "windows_observed": windows,
         "records_checked": totals.records,
         "counters": {
             "expected_required": totals.expected_required,
